@@ -5,6 +5,8 @@ package main
 import (
 	"fmt"
 	"runtime"
+	"sync"
+	"sync/atomic"
 	"time"
 
 	"github.com/semihalev/sdns/internal/cache"
@@ -245,4 +247,161 @@ func execStall(a []string) vlib.Res {
 		return vlib.Res{Impl: "bad-op"}
 	}
 	return vlib.Res{Impl: impl, Oracle: or, Tags: "nt,conc,stall"}
+}
+
+// "Check and act in ONE critical section", judged dynamically.
+//
+// A busy writer holds the write lock of key K's segment (taken through the
+// export). G goroutines arrive meanwhile, each with an operation on the SAME
+// key K, and park on the segment lock. When the writer leaves they all run.
+// Whatever the order, the outcome must be that of SOME serial order:
+//   - removals (Remove / Del / CompareAndDelete with the stored token): K is
+//     gone, exactly one of them removed it (at most one CompareAndDelete
+//     reports true), Len() == number of reachable entries (a second remover
+//     that finds nothing must not uncount anything);
+//   - CompareAndSwap(K, stored, fresh_i): exactly one succeeds, K holds that
+//     one's token;
+//   - PutIfNotExists on an absent K: exactly one inserts, all get its value;
+//   - Set/Add of K: one of the written values is stored, counted once.
+//
+// A look-then-lock-again implementation lets several goroutines pass the
+// look together (they are admitted as readers at the same moment).
+func dupScenario(kind string, mode int, seed uint64) (string, string) {
+	r := vlib.NewR(seed)
+	g := 2 + r.Intn(3)
+	for id := uint64(1); id <= 12; id++ {
+		boxFor(id)
+	}
+	var (
+		m      *cache.SegmentUInt64Map[any]
+		c      *cache.Cache
+		sm2    *cache.SegmentUInt64Map[uint64]
+		t      table
+		tokIDs = map[*box]uint64{}
+	)
+	for id := uint64(1); id <= 12; id++ {
+		tokIDs[boxFor(id)] = id
+	}
+	if kind == "cache" {
+		c = cache.New(64)
+		m = cache.VerifCacheSegMap(c)
+		t = concCacheT{c, tokIDs}
+	} else {
+		sm2 = cache.NewSegmentUInt64Map[uint64](uint8(4+r.Intn(5)), 64)
+		t = segT{sm2}
+	}
+	K := r.U64()
+	if r.Chance(1, 6) {
+		K = 0
+	}
+	others := []uint64{r.U64() | 1, r.U64() | 1, r.U64() | 1}
+	put := func(k, id uint64) {
+		if c != nil {
+			c.Add(k, boxFor(id))
+		} else {
+			sm2.Set(k, id)
+		}
+	}
+	for _, k := range others {
+		if k != K {
+			put(k, 9)
+		}
+	}
+	present := mode != 2 // mode 2: PutIfNotExists / Set on an ABSENT key
+	if present {
+		put(K, 1)
+	}
+	lock := func() {
+		if c != nil {
+			cache.VerifSegLock(m, K)
+		} else {
+			cache.VerifSegLock(sm2, K)
+		}
+	}
+	unlock := func() {
+		if c != nil {
+			cache.VerifSegUnlock(m, K)
+		} else {
+			cache.VerifSegUnlock(sm2, K)
+		}
+	}
+	var trues atomic.Int64
+	var started, wg sync.WaitGroup
+	lock()
+	for i := 0; i < g; i++ {
+		started.Add(1)
+		wg.Add(1)
+		go func(i int) {
+			defer wg.Done()
+			started.Done()
+			switch {
+			case c != nil && mode == 0: // removals, mixed
+				switch i % 2 {
+				case 0:
+					c.Remove(K)
+				default:
+					if c.CompareAndDelete(K, boxFor(1)) {
+						trues.Add(1)
+					}
+				}
+			case c != nil && mode == 1: // CAS with the same old token, distinct new ones
+				if c.CompareAndSwap(K, boxFor(1), boxFor(uint64(2+i))) {
+					trues.Add(1)
+				}
+			case c != nil && mode == 3: // only Remove
+				c.Remove(K)
+			case c != nil: // mode 2: Add of an absent key
+				c.Add(K, boxFor(uint64(2+i)))
+			case mode == 0 || mode == 3:
+				if sm2.Del(K) {
+					trues.Add(1)
+				}
+			case mode == 1:
+				sm2.Set(K, uint64(2+i))
+			default:
+				if _, ins := sm2.PutIfNotExists(K, uint64(2+i)); ins {
+					trues.Add(1)
+				}
+			}
+		}(i)
+	}
+	started.Wait()
+	for i := 0; i < 50; i++ {
+		runtime.Gosched()
+	}
+	time.Sleep(3 * time.Millisecond) // let them park on the segment lock
+	unlock()
+	done := make(chan struct{})
+	go func() { wg.Wait(); close(done) }()
+	if !waitClosed(done, 2*setupTimeout) {
+		return "deadlock", fail("conc/dup/deadlock", "%s: %d goroutines on key %d did not finish", kind, g, K)
+	}
+	what := fmt.Sprintf("%s, %d goroutines on key %d arriving while its segment is write-locked, mode %d", kind, g, K, mode)
+	v, ok := t.Get(K)
+	or := concCheck(what, t, 0, 0)
+	if or == "ok" {
+		switch {
+		case (mode == 0 || mode == 3) && ok:
+			or = fail("conc/dup/not-removed", "%s: key still stored after every remover finished", what)
+		case mode == 0 && c != nil && trues.Load() > 1:
+			or = fail("conc/dup/acted-twice", "%s: %d CompareAndDelete calls report having removed the one entry", what, trues.Load())
+		case (mode == 0 || mode == 3) && c == nil && trues.Load() != 1:
+			or = fail("conc/dup/acted-twice", "%s: %d Del calls report having removed the one entry", what, trues.Load())
+		case mode == 1 && c != nil && (trues.Load() != 1 || !ok || v < 2 || v >= uint64(2+g)):
+			or = fail("conc/dup/cas-not-exclusive", "%s: %d CompareAndSwap(K, stored, fresh) succeeded, key now holds token %d (present=%v)", what, trues.Load(), v, ok)
+		case mode == 2 && c == nil && (trues.Load() != 1 || !ok):
+			or = fail("conc/dup/pine-not-exclusive", "%s: %d PutIfNotExists inserted, present=%v", what, trues.Load(), ok)
+		case (mode == 1 || mode == 2) && !ok:
+			or = fail("conc/dup/lost", "%s: key absent after every writer finished", what)
+		}
+	}
+	return fmt.Sprintf("ok g=%d", g), or
+}
+
+func execDup(a []string) vlib.Res {
+	if len(a) != 3 || (a[0] != "cache" && a[0] != "segmap") {
+		return vlib.Res{Impl: "bad-op"}
+	}
+	impl, or := dupScenario(a[0], vlib.Atoi(a[1]), vlib.AtoU64(a[2]))
+	return vlib.Res{Impl: impl, Oracle: or, Tags: "nt,conc,dup"}
 }
